@@ -268,10 +268,34 @@ fn gen_image(src: &mut Src, prev: Option<&PoolImage>) -> PoolImage {
         }
         3 => {
             // cropped view of a larger few-colour image
-            let (bh, bw) = (h + 3, w + 2);
-            let data: Vec<RGBA> = (0..bh * bw).map(|i| few(i / bw, i % bw)).collect();
-            let base = Image::from_parts(data.into(), Shape::from(Size::new(bh, bw)));
-            PoolImage { image: base.crop(2..2 + h, 1..1 + w), class: "cropped", few_colours: true }
+            // geometries: inner rectangle, full-width band below the top (rows stay back to
+            // back in storage), columns only from the top, band at the bottom
+            match src.draw(4) {
+                0 => {
+                    let (bh, bw) = (h + 3, w + 2);
+                    let data: Vec<RGBA> = (0..bh * bw).map(|i| few(i / bw, i % bw)).collect();
+                    let base = Image::from_parts(data.into(), Shape::from(Size::new(bh, bw)));
+                    PoolImage { image: base.crop(2..2 + h, 1..1 + w), class: "cropped", few_colours: true }
+                }
+                1 => {
+                    let bh = h + 7;
+                    let data: Vec<RGBA> = (0..bh * w).map(|i| few(i / w, i % w)).collect();
+                    let base = Image::from_parts(data.into(), Shape::from(Size::new(bh, w)));
+                    PoolImage { image: base.crop(5..5 + h, ..), class: "cropped-full-width-band", few_colours: true }
+                }
+                2 => {
+                    let bw = w + 3;
+                    let data: Vec<RGBA> = (0..h * bw).map(|i| few(i / bw, i % bw)).collect();
+                    let base = Image::from_parts(data.into(), Shape::from(Size::new(h, bw)));
+                    PoolImage { image: base.crop(.., 2..2 + w), class: "cropped-columns", few_colours: true }
+                }
+                _ => {
+                    let bh = h + 6;
+                    let data: Vec<RGBA> = (0..bh * w).map(|i| few(i / w, i % w)).collect();
+                    let base = Image::from_parts(data.into(), Shape::from(Size::new(bh, w)));
+                    PoolImage { image: base.crop(6.., ..), class: "cropped-bottom-band", few_colours: true }
+                }
+            }
         }
         _ => match prev {
             Some(prev) => {
